@@ -18,6 +18,7 @@ import (
 	"net/http/httptest"
 	"os"
 	"path/filepath"
+	"runtime"
 	"strconv"
 	"strings"
 	"sync"
@@ -101,6 +102,44 @@ func (zeroReader) Read(p []byte) (int, error) {
 		p[i] = 0
 	}
 	return len(p), nil
+}
+
+// c01CN: a response writer whose client can go away (http.CloseNotifier; handlePUT derives its context
+// from it).
+type c01CN struct {
+	*httptest.ResponseRecorder
+	ch chan bool
+}
+
+func (c *c01CN) CloseNotify() <-chan bool { return c.ch }
+
+// hangUp delivers the disconnect to contextForResponse's goroutine and lets it cancel the request's
+// context before the caller goes on (the callers run under GOMAXPROCS(1): yielding the processor runs
+// that goroutine).  If nobody listens any more (the handler has returned) nothing happens.
+func (c *c01CN) hangUp() {
+	select {
+	case c.ch <- true:
+	case <-time.After(2 * time.Second):
+		return
+	}
+	for i := 0; i < 50; i++ {
+		runtime.Gosched()
+	}
+	time.Sleep(2 * time.Millisecond)
+}
+
+func c01Strip(l string) string {
+	if i := strings.LastIndex(l, "#"); i >= 0 {
+		return l[:i]
+	}
+	return l
+}
+
+// c01Trigger: fn runs once, at the first yield point of the volume code whose label is in labels.
+type c01Trigger struct {
+	labels map[string]bool
+	fn     func()
+	fired  bool
 }
 
 var c01CollA, _ = hex.DecodeString("d131dd02c5e6eec4693d9a0698aff95c2fcab58712467eab4004583eb8fb7f8955ad340609f4b30283e488832571415a085125e8f7cdc99fd91dbdf280373c5bd8823e3156348f5bae6dacd436c919c6dd53e2b487da03fd02396306d248cda0e99f33420f577ee8ce54b67080a80d1ec69821bcb6a8839396f9652b6ff72a70")
@@ -210,7 +249,13 @@ func TestVerifC01(t *testing.T) {
 			}
 		}
 		tEnv := time.Now()
-		env, err := ksNewEnv(ksOpts{ro: ro, blobTrash: true, lifetime: 24 * time.Hour})
+		// (second random stream: the overlap machinery; the sequential part of a case does not depend on it)
+		rv := vNewRand(seed*1000003 + uint64(i)*7919 + 99991)
+		overlap := !bigMode && rv.Chance(2, 5)
+		// a lone writable volume is a Serialize volume in half of the overlap cases: one request at a time
+		// inside the volume, the others wait in UnixVolume.lock -- where their client may hang up
+		serialize := overlap && nvol == 1 && !ro[0] && rv.Bool()
+		env, err := ksNewEnv(ksOpts{ro: ro, blobTrash: true, lifetime: 24 * time.Hour, serialize: serialize})
 		if err != nil {
 			t.Fatal(err)
 		}
@@ -359,9 +404,8 @@ func TestVerifC01(t *testing.T) {
 		// is in the pool at that moment is overwritten (ksPool.scribble).  The stalled GET has done its
 		// volume work when it starts to write, the stalled PUT has not started it, so the case is still a
 		// request SEQUENCE for the model: [GET; nested...] resp. [nested...; PUT].
-		rv := vNewRand(seed*1000003 + uint64(i)*7919 + 99991)
-		overlap := !bigMode && rv.Chance(2, 5)
 		var pool *ksPool
+		var trig *c01Trigger
 		scribbleN := 256
 		if overlap {
 			// in 2 of 3 overlap cases 1-2 more buffers are out for the whole case (other clients' requests
@@ -375,11 +419,22 @@ func TestVerifC01(t *testing.T) {
 			// also at every filesystem step inside the volume work (when unix_volume.go is the
 			// instrumented copy): whatever is in the pool then may be overwritten by somebody else
 			var smu sync.Mutex
-			verifSetHook(func(string) {
+			verifSetHook(func(label string) {
 				smu.Lock()
 				pool.scribble(scribbleN)
+				tg := trig
+				fire := tg != nil && !tg.fired && tg.labels[c01Strip(label)]
+				if fire {
+					tg.fired = true
+				}
 				smu.Unlock()
+				if fire {
+					tg.fn() // on the goroutine of the request that reached this yield point, which waits here
+				}
 			})
+			if serialize {
+				tags = append(tags, "serialize-volume")
+			}
 			for _, b := range blocks {
 				if len(b.data)+200 > scribbleN {
 					scribbleN = len(b.data) + 200
@@ -390,15 +445,24 @@ func TestVerifC01(t *testing.T) {
 		// perform sends one request and appends it (and, through `nested`, the requests that ran while it
 		// was stalled) to ops/obs in the order in which they took effect.
 		hung := false // a request did not return: the case ends there
+		// what is stored under a block's name on the (first) volume right now: "" = no such file
+		fileNow := func(b *c01Block) bool {
+			fi, err := os.Lstat(filepath.Join(env.dirs[0], b.hash[:3], b.hash))
+			return err == nil && !fi.IsDir()
+		}
 		var perform func(rr *vRand, kind string, b *c01Block, bidx int, nested func()) int
 		perform = func(rr *vRand, kind string, b *c01Block, bidx int, nested func()) int {
 			var code int
 			if (kind == "PUTSHORT" || kind == "PUTFAIL") && (b.big || len(b.data) == 0) {
 				kind = "PUT" // nothing to cut
 			}
+			if (kind == "PUTABANDON" || kind == "PUTLOCKED" || kind == "PUTHANGUP") && (b.big || pool == nil) {
+				kind = "PUT"
+			}
 			var gop, gbody, gcl string
 			gbody, gcl = "None", "None"
 			slot := -1
+			cancelled := false
 			shortNote := ""
 			var slotAfter [][]string
 			slotExtra := 0
@@ -445,7 +509,54 @@ func TestVerifC01(t *testing.T) {
 				var c *c01Content
 				var d []byte
 				short := false
+				var cn *c01CN // a client that can go away
 				switch kind {
+				case "PUTABANDON", "PUTLOCKED", "PUTHANGUP":
+					// PUTABANDON: while this PUT is inside WriteBlock (temp file created, copy under way) a complete
+					//   PUT of the SAME block runs and is answered, then this request's client goes away.
+					// PUTLOCKED (Serialize volume): while this PUT is inside the volume (holding the Serialize lock) a
+					//   PUTHANGUP request runs: a PUT whose client goes away at the moment it starts to wait for
+					//   that lock.  Both stay on their goroutines; nothing is timed.
+					d = b.data
+					if d == nil {
+						d = []byte{}
+					}
+					body, c = bytes.NewReader(d), tab.bytes(d)
+					cn = &c01CN{ResponseRecorder: httptest.NewRecorder(), ch: make(chan bool)}
+					switch kind {
+					case "PUTABANDON":
+						trig = &c01Trigger{labels: map[string]bool{"WriteBlock:write:tmpfile": true, "WriteBlock:tmpfile.Close": true}, fn: func() {
+							perform(rv, "PUT", b, bidx, nil)
+							tags = append(tags, "nested=PUT-same-block")
+							cn.hangUp()
+						}}
+					case "PUTLOCKED":
+						trig = &c01Trigger{labels: map[string]bool{"getFunc:v.os.Open": true, "Touch:v.os.OpenFile": true, "WriteBlock:write:tmpfile": true, "WriteBlock:tmpfile.Close": true}, fn: func() {
+							// the other request must meet the lock in Compare (a file under its name exists): a PUT
+							// that hangs up while waiting in WriteBlock leaves its temp file behind (the code returns
+							// without removing it), which is not this property's business
+							var cands []int
+							for j, ob := range blocks {
+								if !ob.big && fileNow(ob) {
+									cands = append(cands, j)
+								}
+							}
+							if len(cands) == 0 || hung {
+								return
+							}
+							j := cands[rv.Intn(len(cands))]
+							perform(rv, "PUTHANGUP", blocks[j], j, nil)
+							tags = append(tags, "nested=PUTHANGUP")
+						}}
+					case "PUTHANGUP":
+						fired := false
+						verifSetAuxHook(func(label string) {
+							if !fired && strings.Contains(label, "v.lock") {
+								fired = true
+								cn.hangUp()
+							}
+						})
+					}
 				case "PUT":
 					if b.big {
 						body, clen = io.LimitReader(zeroReader{}, BlockSize), BlockSize
@@ -524,13 +635,40 @@ func TestVerifC01(t *testing.T) {
 					tags = append(tags, "stalled=PUT")
 				}
 				var rr2 *httptest.ResponseRecorder
-				if !ksGuard(func() { rr2 = env.do("PUT", "/"+b.hash, body, clen, false) }) {
+				if cn != nil {
+					returned := ksGuard(func() { env.serve(cn, "PUT", "/"+b.hash, body, clen, false) })
+					verifSetAuxHook(nil)
+					if kind != "PUTHANGUP" {
+						trig = nil
+					}
+					// an abandoned WriteBlock may still be running: wait until no volume method is active
+					for w, idle := 0, 0; idle < 3 && w < 20000; w++ {
+						runtime.Gosched()
+						time.Sleep(200 * time.Microsecond)
+						if verifActive() == 0 {
+							idle++
+						} else {
+							idle = 0
+						}
+					}
+					if !returned {
+						hung = true
+						code = 0
+					} else {
+						code = cn.Code
+					}
+					if code/100 != 2 && !hung {
+						cancelled = true
+					}
+				} else if !ksGuard(func() { rr2 = env.do("PUT", "/"+b.hash, body, clen, false) }) {
 					hung = true
 					code = 0
 				} else {
 					code = rr2.Code
 				}
-				if short {
+				if cancelled {
+					gop = fmt.Sprintf("PutCancel %s %s", gStr(b.hash), c.g())
+				} else if short {
 					gop = fmt.Sprintf("PutShort %s %s %d", gStr(b.hash), c.g(), clen)
 				} else {
 					gop = "Put " + gStr(b.hash) + " " + c.g()
@@ -550,6 +688,9 @@ func TestVerifC01(t *testing.T) {
 			dsc := fmt.Sprintf("%s %s -> %d", kind, b.hash[:6], code)
 			if shortNote != "" {
 				dsc = fmt.Sprintf("%s %s (%s) -> %d", kind, b.hash[:6], shortNote, code)
+			}
+			if cancelled {
+				dsc += " (its client went away: " + map[string]string{"PUTABANDON": "during the copy in WriteBlock, after the preceding PUT was answered", "PUTLOCKED": "-", "PUTHANGUP": "while waiting for the volume's Serialize lock, held by the following request"}[kind] + ")"
 			}
 			if hung && code == 0 {
 				dsc = fmt.Sprintf("%s %s -> the handler did not return", kind, b.hash[:6])
@@ -612,7 +753,13 @@ func TestVerifC01(t *testing.T) {
 				}
 			}
 			var code int
-			if overlap && rv.Chance(3, 4) {
+			if overlap && len(queue) == 0 && rv.Chance(1, 4) {
+				kind = "PUTABANDON"
+				if serialize {
+					kind = "PUTLOCKED"
+				}
+				ksOneP(func() { code = perform(r, kind, b, bidx, nil) })
+			} else if overlap && rv.Chance(3, 4) {
 				nested := func() {
 					for j, k := 0, 1+rv.Intn(2); j < k; j++ {
 						nbi := rv.Intn(len(blocks))
